@@ -217,7 +217,9 @@ def run_shard(prop, tier, seed, shard, nshards, out):
     except Exception:  # a crash of the harness itself is never a verdict
         status = "harness-error"
         ctx.counters["harness_errors"] += 1
-        ctx.inconclusive["harness_error: " + traceback.format_exc()[-1500:]] += 1
+        tb = traceback.format_exc().strip().splitlines()
+        ctx.inconclusive["harness_error: " + tb[-1][:200] + " @ " + " | ".join(
+            l.strip() for l in tb[-7:-1])[:600]] += 1
     d = ctx.dump()
     d["status"] = status
     with open(out, "w") as f:
@@ -383,7 +385,7 @@ def orchestrate(prop: str, tier: str, seed: int, jobs: int) -> int:
         "samples": samples if samples else [{"note": "no sample recorded"}],
         "monitor_counters": dict(sorted(counters.items())),
         "case_classes": dict(sorted(classes.items())),
-        "inconclusive_cases": {k[:300]: v for k, v in sorted(inconc.items())},
+        "inconclusive_cases": {k[:600]: v for k, v in sorted(inconc.items())},
         "shards": nshards,
         "shards_completed": len(results),
         "exhaustive": bool(getattr(mod, "EXHAUSTIVE", {}).get(tier, False)),
@@ -417,7 +419,7 @@ def orchestrate(prop: str, tier: str, seed: int, jobs: int) -> int:
         print(f"[{prop}] classes: {json.dumps(dict(sorted(classes.items())))}")
     if inconc:
         print(f"[{prop}] inconclusive cases: "
-              f"{json.dumps({k[:160]: v for k, v in sorted(inconc.items())})}")
+              f"{json.dumps({k[:500]: v for k, v in sorted(inconc.items())})}")
     for mech, k in open_known.items():
         print(f"KNOWN-FINDING: property={prop} {mech}: {k.get('what', '')} "
               f"(observed {known_hits.get(mech, 0)} time(s) in this run)")
